@@ -39,6 +39,9 @@ pub enum SOp {
     FromUtf8Lossy { b: Vec<u8> },
     FromUtf16 { u: Vec<u16> },
     PanicAt { n: i64 },
+    /// bumpalo only: forbid (on = true) or allow the arena to obtain more memory; growth then fails with an
+    /// unwinding panic, after which the string must still be valid UTF-8
+    ArenaNoGrow { on: bool },
 }
 
 #[derive(Serialize, Deserialize, Clone, Debug)]
@@ -75,6 +78,7 @@ pub struct SEvent {
     pub cap0: i64,
     pub moved: u8,
     pub pp: u8,
+    pub nogrow: u8,     // 1 while the arena is forbidden to obtain more memory (bumpalo twin only)
     pub tag: String,
     pub msg: String,
 }
@@ -110,10 +114,12 @@ macro_rules! sinterp {
                 pub out: Vec<SEvent>,
                 pub p: usize,
                 pub tag: String,
+                pub nogrow: bool,
             }
 
             impl<'b> State<'b> {
                 fn call<F: FnOnce(&mut Self, &mut SEvent)>(&mut self, mut ev: SEvent, f: F) {
+                    ev.nogrow = self.nogrow as u8;
                     ev.p = self.p;
                     ev.i = self.out.len();
                     ev.im = $im.into();
@@ -433,6 +439,21 @@ macro_rules! sinterp {
                                 Err(_) => ev.res = "err".into(),
                             });
                         }
+                        SOp::ArenaNoGrow { on } => {
+                            if $im == "bump" {
+                                self.nogrow = on;
+                                // fill the current chunk, then cap the arena at what it holds
+                                if on {
+                                    let cap = self.bump.chunk_capacity();
+                                    if cap > 0 {
+                                        let _ = self.bump.try_alloc_layout(std::alloc::Layout::from_size_align(cap, 1).unwrap());
+                                    }
+                                    self.bump.set_allocation_limit(Some(self.bump.allocated_bytes()));
+                                } else {
+                                    self.bump.set_allocation_limit(None);
+                                }
+                            }
+                        }
                         SOp::PanicAt { n } => {
                             LG.with(|l| {
                                 let mut l = l.borrow_mut();
@@ -448,7 +469,7 @@ macro_rules! sinterp {
                 rec::reset_slice();
                 LG.with(|l| *l.borrow_mut() = Ledger { panic_at: -1, ..Default::default() });
                 let bump = Bump::new();
-                let mut st = State { bump: &bump, s: None, out: Vec::new(), p, tag: prog.tag.clone() };
+                let mut st = State { bump: &bump, s: None, out: Vec::new(), p, tag: prog.tag.clone(), nogrow: false };
                 for op in &prog.ops {
                     st.step(op);
                 }
